@@ -8,6 +8,11 @@
 (* i-th backend write of the flush, or by end_write; the required continuation *)
 (* is always  close-if-open ; release.  Deviation "FlushFailureKeepsLock" is   *)
 (* the pinned tree (an exception in flush()/end_write() skips the release).    *)
+(* Before its first session a process constructs its handle                    *)
+(* (UkvCollectionBackend.__init__): take the write lock; create the library    *)
+(* file if it is absent; release.  Deviation "TestOutsideLock" tests for the   *)
+(* file BEFORE taking the lock and (re)creates it afterwards on that stale     *)
+(* answer - which empties a library another process has filled meanwhile.      *)
 EXTENDS Naturals, Sequences, FiniteSets, TLC
 CONSTANTS Proc, Key, MaxSess, MaxPuts, Deviations
 VARIABLES lock,     \* [writer : Proc \cup {"none"}, readers : SUBSET Proc]
@@ -19,8 +24,11 @@ VARIABLES lock,     \* [writer : Proc \cup {"none"}, readers : SUBSET Proc]
           fopen,    \* [Proc -> BOOLEAN]     file handle open
           failed,   \* [Proc -> BOOLEAN]     an exception is propagating in this session
           nsess,    \* [Proc -> Nat]         sessions started
-          acked     \* records of sessions that completed without an exception (history variable)
-vars == <<lock, file, pc, kind, queue, keys, fopen, failed, nsess, acked>>
+          acked,    \* records of sessions that completed without an exception (history variable)
+          exists,   \* the library file exists
+          saw       \* [Proc -> BOOLEAN]     constructor: the answer of the existence test it acts on
+vars == <<lock, file, pc, kind, queue, keys, fopen, failed, nsess, acked, exists, saw>>
+cvars == <<exists, saw>>
 
 KeysOf(s) == {s[i].k : i \in 1..Len(s)}
 Range(s)  == {s[i] : i \in 1..Len(s)}
@@ -28,100 +36,122 @@ None == "none"
 
 Init == /\ lock = [writer |-> None, readers |-> {}]
         /\ file = <<>>
-        /\ pc = [p \in Proc |-> "idle"] /\ kind = [p \in Proc |-> "r"]
+        /\ pc = [p \in Proc |-> "new"] /\ exists = FALSE /\ saw = [p \in Proc |-> FALSE]
+        /\ kind = [p \in Proc |-> "r"]
         /\ queue = [p \in Proc |-> <<>>] /\ keys = [p \in Proc |-> {}]
         /\ fopen = [p \in Proc |-> FALSE] /\ failed = [p \in Proc |-> FALSE]
         /\ nsess = [p \in Proc |-> 0] /\ acked = {}
 
+(* ----- construction of the handle (UkvCollectionBackend.__init__) ---------- *)
+CtorTest(p) == /\ pc[p] = "new"
+               /\ saw' = [saw EXCEPT ![p] = IF "TestOutsideLock" \in Deviations THEN exists ELSE FALSE]
+               /\ pc' = [pc EXCEPT ![p] = "ctor_wait"]
+               /\ UNCHANGED <<lock, file, kind, queue, keys, fopen, failed, nsess, acked, exists>>
+CtorAcquire(p) == /\ pc[p] = "ctor_wait" /\ lock.writer = None /\ lock.readers = {}
+                  /\ lock' = [lock EXCEPT !.writer = p] /\ pc' = [pc EXCEPT ![p] = "ctor_held"]
+                  /\ UNCHANGED <<file, kind, queue, keys, fopen, failed, nsess, acked, exists, saw>>
+CtorCreate(p) == /\ pc[p] = "ctor_held"
+                 /\ LET absent == IF "TestOutsideLock" \in Deviations THEN ~saw[p] ELSE ~exists IN
+                    IF absent THEN exists' = TRUE /\ file' = <<>>          \* open(..., "x" / "w"): an empty library
+                              ELSE UNCHANGED <<exists, file>>
+                 /\ pc' = [pc EXCEPT ![p] = "ctor_rel"]
+                 /\ UNCHANGED <<lock, kind, queue, keys, fopen, failed, nsess, acked, saw>>
+CtorRelease(p) == /\ pc[p] = "ctor_rel"
+                  /\ lock' = [lock EXCEPT !.writer = None] /\ pc' = [pc EXCEPT ![p] = "idle"]
+                  /\ UNCHANGED <<file, kind, queue, keys, fopen, failed, nsess, acked, exists, saw>>
+
 Request(p, kd) == /\ pc[p] = "idle" /\ nsess[p] < MaxSess
                   /\ pc' = [pc EXCEPT ![p] = "waiting"] /\ kind' = [kind EXCEPT ![p] = kd]
                   /\ nsess' = [nsess EXCEPT ![p] = @ + 1] /\ failed' = [failed EXCEPT ![p] = FALSE]
-                  /\ UNCHANGED <<lock, file, queue, keys, fopen, acked>>
+                  /\ UNCHANGED <<lock, file, queue, keys, fopen, acked, exists, saw>>
 
 Acquire(p) == /\ pc[p] = "waiting"
               /\ IF kind[p] = "r"
                    THEN lock.writer = None /\ lock' = [lock EXCEPT !.readers = @ \cup {p}]
                    ELSE lock.writer = None /\ lock.readers = {} /\ lock' = [lock EXCEPT !.writer = p]
               /\ pc' = [pc EXCEPT ![p] = "held"]
-              /\ UNCHANGED <<file, kind, queue, keys, fopen, failed, nsess, acked>>
+              /\ UNCHANGED <<file, kind, queue, keys, fopen, failed, nsess, acked, exists, saw>>
 
 (* begin_read/begin_write + update_keys: the index is refreshed from the file *)
 Begin(p) == /\ pc[p] = "held"
             /\ fopen' = [fopen EXCEPT ![p] = TRUE]
             /\ keys' = [keys EXCEPT ![p] = IF "StaleIndex" \in Deviations THEN @ ELSE KeysOf(file)]
             /\ pc' = [pc EXCEPT ![p] = "body"]
-            /\ UNCHANGED <<lock, file, kind, queue, failed, nsess, acked>>
+            /\ UNCHANGED <<lock, file, kind, queue, failed, nsess, acked, exists, saw>>
 
 BodyPut(p, k) == /\ pc[p] = "body" /\ kind[p] = "w" /\ k \notin keys[p] /\ Len(queue[p]) < MaxPuts
                  /\ queue' = [queue EXCEPT ![p] = Append(@, [k |-> k, owner |-> p, sid |-> nsess[p]])]
                  /\ keys' = [keys EXCEPT ![p] = @ \cup {k}]
-                 /\ UNCHANGED <<lock, file, pc, kind, fopen, failed, nsess, acked>>
+                 /\ UNCHANGED <<lock, file, pc, kind, fopen, failed, nsess, acked, exists, saw>>
 
 (* an unbuffered collection writes at once; a buffered one at the end: both are modelled *)
 FlushOne(p) == /\ pc[p] \in {"body", "flushing"} /\ kind[p] = "w" /\ queue[p] # <<>>
                /\ file' = Append(file, Head(queue[p]))
                /\ queue' = [queue EXCEPT ![p] = Tail(@)]
-               /\ UNCHANGED <<lock, pc, kind, keys, fopen, failed, nsess, acked>>
+               /\ UNCHANGED <<lock, pc, kind, keys, fopen, failed, nsess, acked, exists, saw>>
 
 BodyDone(p) == /\ pc[p] = "body"
                /\ pc' = [pc EXCEPT ![p] = IF kind[p] = "w" THEN "flushing" ELSE "closing"]
-               /\ UNCHANGED <<lock, file, kind, queue, keys, fopen, failed, nsess, acked>>
+               /\ UNCHANGED <<lock, file, kind, queue, keys, fopen, failed, nsess, acked, exists, saw>>
 
 RaiseInBody(p) == /\ pc[p] = "body"
                   /\ failed' = [failed EXCEPT ![p] = TRUE]
                   /\ pc' = [pc EXCEPT ![p] = IF kind[p] = "w" THEN "flushing" ELSE "closing"]
-                  /\ UNCHANGED <<lock, file, kind, queue, keys, fopen, nsess, acked>>
+                  /\ UNCHANGED <<lock, file, kind, queue, keys, fopen, nsess, acked, exists, saw>>
 
 FlushDone(p) == /\ pc[p] = "flushing" /\ queue[p] = <<>>
                 /\ pc' = [pc EXCEPT ![p] = "closing"]
-                /\ UNCHANGED <<lock, file, kind, queue, keys, fopen, failed, nsess, acked>>
+                /\ UNCHANGED <<lock, file, kind, queue, keys, fopen, failed, nsess, acked, exists, saw>>
 
 (* the backend write of the head item raises: the item is dropped, the rest is not written now *)
 RaiseInFlush(p) == /\ pc[p] = "flushing" /\ queue[p] # <<>>
                    /\ failed' = [failed EXCEPT ![p] = TRUE]
                    /\ queue' = [queue EXCEPT ![p] = <<>>]
                    /\ pc' = [pc EXCEPT ![p] = IF "FlushFailureKeepsLock" \in Deviations THEN "leaked" ELSE "closing"]
-                   /\ UNCHANGED <<lock, file, kind, keys, fopen, nsess, acked>>
+                   /\ UNCHANGED <<lock, file, kind, keys, fopen, nsess, acked, exists, saw>>
 
 End(p) == /\ pc[p] = "closing"
           /\ fopen' = [fopen EXCEPT ![p] = FALSE]
           /\ pc' = [pc EXCEPT ![p] = "releasing"]
-          /\ UNCHANGED <<lock, file, kind, queue, keys, failed, nsess, acked>>
+          /\ UNCHANGED <<lock, file, kind, queue, keys, failed, nsess, acked, exists, saw>>
 
 RaiseInEnd(p) == /\ pc[p] = "closing"
                  /\ failed' = [failed EXCEPT ![p] = TRUE]
                  /\ fopen' = [fopen EXCEPT ![p] = FALSE]
                  /\ pc' = [pc EXCEPT ![p] = IF "FlushFailureKeepsLock" \in Deviations THEN "leaked" ELSE "releasing"]
-                 /\ UNCHANGED <<lock, file, kind, queue, keys, nsess, acked>>
+                 /\ UNCHANGED <<lock, file, kind, queue, keys, nsess, acked, exists, saw>>
 
 Release(p) == /\ pc[p] = "releasing"
               /\ lock' = IF kind[p] = "w" THEN [lock EXCEPT !.writer = None] ELSE [lock EXCEPT !.readers = @ \ {p}]
               /\ pc' = [pc EXCEPT ![p] = "idle"]
               /\ acked' = IF kind[p] = "w" /\ ~failed[p]
                             THEN acked \cup {r \in Range(file) : r.owner = p /\ r.sid = nsess[p]} ELSE acked
-              /\ UNCHANGED <<file, kind, queue, keys, fopen, failed, nsess>>
+              /\ UNCHANGED <<file, kind, queue, keys, fopen, failed, nsess, exists, saw>>
 
 (* pinned behaviour: the exception leaves the context manager without releasing *)
 Leak(p) == /\ pc[p] = "leaked" /\ pc' = [pc EXCEPT ![p] = "idle"]
-           /\ UNCHANGED <<lock, file, kind, queue, keys, fopen, failed, nsess, acked>>
+           /\ UNCHANGED <<lock, file, kind, queue, keys, fopen, failed, nsess, acked, exists, saw>>
 
-Step(p) == \/ \E kd \in {"r", "w"} : Request(p, kd)
+Step(p) == \/ CtorTest(p) \/ CtorAcquire(p) \/ CtorCreate(p) \/ CtorRelease(p)
+           \/ \E kd \in {"r", "w"} : Request(p, kd)
            \/ Acquire(p) \/ Begin(p) \/ (\E k \in Key : BodyPut(p, k)) \/ FlushOne(p) \/ BodyDone(p)
            \/ RaiseInBody(p) \/ FlushDone(p) \/ RaiseInFlush(p) \/ End(p) \/ RaiseInEnd(p) \/ Release(p) \/ Leak(p)
 Next == \E p \in Proc : Step(p)
-Progress(p) == Acquire(p) \/ Begin(p) \/ FlushOne(p) \/ BodyDone(p) \/ FlushDone(p) \/ End(p) \/ Release(p) \/ Leak(p)
+Progress(p) == CtorTest(p) \/ CtorAcquire(p) \/ CtorCreate(p) \/ CtorRelease(p) \/ Acquire(p) \/ Begin(p) \/ FlushOne(p) \/ BodyDone(p) \/ FlushDone(p) \/ End(p) \/ Release(p) \/ Leak(p)
 Spec == Init /\ [][Next]_vars
-FairSpec == Spec /\ \A p \in Proc : WF_vars(Progress(p)) /\ SF_vars(Acquire(p))
+FairSpec == Spec /\ \A p \in Proc : WF_vars(Progress(p)) /\ SF_vars(Acquire(p)) /\ SF_vars(CtorAcquire(p))
 
 (* ----- clauses of C04 ------------------------------------------------------ *)
 InSession(p) == pc[p] \in {"held", "body", "flushing", "closing", "releasing"}
 WriterExclusive == /\ lock.writer # None => lock.readers = {}
                    /\ \A p \in Proc : InSession(p) =>
                         IF kind[p] = "w" THEN lock.writer = p /\ lock.readers = {} ELSE p \in lock.readers /\ lock.writer = None
-LockFreeWhenIdle == \A p \in Proc : pc[p] \in {"idle", "waiting"} => lock.writer # p /\ p \notin lock.readers
+                   /\ \A p \in Proc : pc[p] \in {"ctor_held", "ctor_rel"} => lock.writer = p /\ lock.readers = {}
+LockFreeWhenIdle == \A p \in Proc : pc[p] \in {"idle", "waiting", "new", "ctor_wait"} => lock.writer # p /\ p \notin lock.readers
 HandleClosedWhenIdle == \A p \in Proc : pc[p] = "idle" => ~fopen[p]
 AckedPresent == acked \subseteq Range(file)                                  \* no completed record is lost
 NoLostOrAltered == [][Len(file) <= Len(file') /\ SubSeq(file', 1, Len(file)) = file]_vars
+SessionsNeedTheFile == \A p \in Proc : InSession(p) => exists
 ReaderSeesOnlyComplete == \A p \in Proc : (pc[p] = "body" /\ kind[p] = "r") => (keys[p] = KeysOf(file) /\ lock.writer = None)
 WriterSeesAll == \A p \in Proc : (pc[p] = "body" /\ kind[p] = "w") => KeysOf(file) \subseteq keys[p]
 NoDuplicate == \A i, j \in 1..Len(file) : file[i].k = file[j].k => i = j
